@@ -26,12 +26,16 @@ type sigSpec struct {
 	State   string
 	Members int
 	PathID  int // signatures with the same non-zero PathID share their source paths (equal stacks when frames and arguments agree)
+	Creator string // "": no "created by"; otherwise the creator function
 }
 
 func (s sigSpec) String() string {
 	out := fmt.Sprintf("%s", s.State)
 	if s.Locked {
 		out += ",locked"
+	}
+	if s.Creator != "" {
+		out += ",created by " + s.Creator
 	}
 	out += fmt.Sprintf(",n=%d", s.Members)
 	for _, f := range s.Frames {
@@ -46,7 +50,10 @@ func (s sigSpec) String() string {
 
 // goroutinesOf builds the member goroutines of signature u (index uniq keeps signatures of
 // different universe entries dissimilar without being visible to the ordering).
-func goroutinesOf(s sigSpec, uniq int, firstID int) []*stack.Goroutine {
+// c13Level is the similarity level the ordering is observed at: ExactFlags (every member its
+// own signature) or AnyPointer (members of one signature carry different pointer arguments and
+// are merged into one bucket, so the bucket's signature is a merged one).
+func goroutinesOf(s sigSpec, uniq int, firstID int, lvl stack.Similarity) []*stack.Goroutine {
 	var out []*stack.Goroutine
 	if s.PathID != 0 {
 		uniq = s.PathID
@@ -79,14 +86,26 @@ func goroutinesOf(s sigSpec, uniq int, firstID int) []*stack.Goroutine {
 			if f.Arg != 0 {
 				c.Args.Values = []stack.Arg{{Value: f.Arg}}
 			}
+			if lvl == stack.AnyPointer && s.Members > 1 {
+				// members differ in a pointer: merged at AnyPointer, apart at ExactFlags
+				c.Args.Values = append(c.Args.Values, stack.Arg{Value: 0xc000000000 + uint64(m)*8, IsPtr: true})
+			}
 			g.Stack.Calls = append(g.Stack.Calls, c)
+		}
+		if s.Creator != "" {
+			var c stack.Call
+			if err := c.Func.Init("main." + s.Creator); err != nil {
+				panic("HARNESS: " + err.Error())
+			}
+			c.RemoteSrcPath, c.DirSrc, c.SrcName, c.Line, c.ImportPath = "/creators/d/s.go", "d/s.go", "s.go", 5, "main"
+			g.CreatedBy.Calls = []stack.Call{c}
 		}
 		out = append(out, g)
 	}
 	return out
 }
 
-func c13Universe(size int) []sigSpec {
+func c13Universe(size int, lvl stack.Similarity) []sigSpec {
 	type lm struct {
 		l stack.Location
 		m bool
@@ -96,6 +115,11 @@ func c13Universe(size int) []sigSpec {
 	fr := func(c lm) frameSpec { return frameSpec{Loc: c.l, Main: c.m, Fn: "Fn", Dir: "d/x.go", Line: 10} }
 	var u []sigSpec
 	add := func(s sigSpec) {
+		if lvl != stack.ExactFlags && s.PathID != 0 && s.Locked {
+			// the lock flag separates goroutines at ExactFlags only: with shared paths a locked
+			// twin would be the same bucket as the unlocked one at the coarser levels
+			return
+		}
 		if s.State == "" {
 			s.State = "select"
 		}
@@ -161,6 +185,11 @@ func c13Universe(size int) []sigSpec {
 			}
 		}
 	}
+	// the same stack created by nobody, by spawnA and by spawnB (the creator separates buckets
+	// but is no ordering key)
+	for _, cr := range []string{"", "spawnA", "spawnB"} {
+		add(sigSpec{Frames: []frameSpec{{Loc: stack.GoPkg, Fn: "Cc", Dir: "d/x.go", Line: 10}}, Creator: cr, PathID: 100001})
+	}
 	for _, dir := range []string{"", "a/x.go", "b/x.go"} {
 		for _, line := range []int{1, 2, 3} {
 			add(sigSpec{Frames: []frameSpec{{Loc: stack.GOPATH, Fn: "Zz", Dir: dir, Line: line}}})
@@ -183,7 +212,7 @@ func c13Universe(size int) []sigSpec {
 }
 
 // relation: -1 a before b whatever the arrival order, +1 b before a, 0 tied (arrival order kept)
-func c13Relation(u []sigSpec, a, b int, reps int) (int, error) {
+func c13Relation(u []sigSpec, a, b int, reps int, lvl stack.Similarity) (int, error) {
 	aFirstAll, bFirstAll, arrivalKept := true, true, true
 	for r := 0; r < reps; r++ {
 		for _, order := range [][2]int{{a, b}, {b, a}} {
@@ -193,9 +222,9 @@ func c13Relation(u []sigSpec, a, b int, reps int) (int, error) {
 				if !idsUp {
 					id1, id2 = 20, 10
 				}
-				s.Goroutines = append(s.Goroutines, goroutinesOf(u[order[0]], order[0], id1)...)
-				s.Goroutines = append(s.Goroutines, goroutinesOf(u[order[1]], order[1], id2)...)
-				ag := s.Aggregate(stack.ExactFlags)
+				s.Goroutines = append(s.Goroutines, goroutinesOf(u[order[0]], order[0], id1, lvl)...)
+				s.Goroutines = append(s.Goroutines, goroutinesOf(u[order[1]], order[1], id2, lvl)...)
+				ag := s.Aggregate(lvl)
 				if len(ag.Buckets) != 2 {
 					return 0, fmt.Errorf("signatures %d and %d should be two buckets, got %d", a, b, len(ag.Buckets))
 				}
@@ -253,6 +282,7 @@ func mainCount(s sigSpec) int {
 type c13TripleCase struct {
 	Size    int
 	A, B, C int
+	Level   int // 0 ExactFlags, 2 AnyPointer
 }
 
 func c13Laws(u []sigSpec, rel func(a, b int) (int, error), a, b, c int) error {
@@ -291,12 +321,13 @@ func c13PairContract(u []sigSpec, a, b, r int) error {
 var c13Triple = Check[c13TripleCase]{
 	Prop: "C13", Name: "triple",
 	Oracle: func(c c13TripleCase) error {
-		u := c13Universe(c.Size)
+		lvl := stack.Similarity(c.Level)
+		u := c13Universe(c.Size, lvl)
 		rel := func(a, b int) (int, error) {
 			if a == b {
 				return 0, nil
 			}
-			return c13Relation(u, a, b, 8)
+			return c13Relation(u, a, b, 8, lvl)
 		}
 		if err := c13Laws(u, rel, c.A, c.B, c.C); err != nil {
 			return err
@@ -324,21 +355,23 @@ type c13SetCase struct {
 	Order       []int // universe indexes in arrival order
 	First       int   // position in Order of the bucket holding the First goroutine; -1 none
 	FirstMember int   // which member of that bucket is the First goroutine
+	Level       int   // 0 ExactFlags, 2 AnyPointer
 }
 
 func c13SetOracle(c c13SetCase) error {
-	u := c13Universe(c.Size)
+	lvl := stack.Similarity(c.Level)
+	u := c13Universe(c.Size, lvl)
 	s := &stack.Snapshot{}
 	idOf := map[int]int{} // first id of member goroutines -> universe index
 	for i, k := range c.Order {
-		gs := goroutinesOf(u[k], k, 100*(i+1))
+		gs := goroutinesOf(u[k], k, 100*(i+1), lvl)
 		if i == c.First {
 			gs[c.FirstMember%len(gs)].First = true
 		}
 		idOf[gs[0].ID] = k
 		s.Goroutines = append(s.Goroutines, gs...)
 	}
-	ag := s.Aggregate(stack.ExactFlags)
+	ag := s.Aggregate(lvl)
 	if len(ag.Buckets) != len(c.Order) {
 		return fmt.Errorf("%d signatures gave %d buckets", len(c.Order), len(ag.Buckets))
 	}
@@ -362,13 +395,13 @@ func c13SetOracle(c c13SetCase) error {
 			if c.First >= 0 && (a == c.Order[c.First] || b == c.Order[c.First]) {
 				continue
 			}
-			r, err := c13Relation(u, a, b, 1)
+			r, err := c13Relation(u, a, b, 1, lvl)
 			if err != nil {
 				return err
 			}
 			if r == 1 {
 				// re-verify before reporting: a random tie must not look like an inversion
-				if r2, _ := c13Relation(u, a, b, 32); r2 == 1 {
+				if r2, _ := c13Relation(u, a, b, 32, lvl); r2 == 1 {
 					return fmt.Errorf("in a set of %d buckets signature %d is emitted before %d, but alone %d always precedes %d:\n %v\n %v", len(emitted), a, b, b, a, u[a], u[b])
 				}
 			}
@@ -381,19 +414,19 @@ var c13Set = Check[c13SetCase]{
 	Prop: "C13", Name: "set",
 	Gen: func(t *rapid.T) c13SetCase {
 		size := n(0, 150)
-		u := c13Universe(size)
+		level := rapid.SampledFrom([]int{0, 2}).Draw(t, "level")
+		u := c13Universe(size, stack.Similarity(level))
 		k := rapid.IntRange(4, 12).Draw(t, "setSize")
 		idx := make([]int, len(u))
 		for i := range idx {
 			idx[i] = i
 		}
 		perm := rapid.Permutation(idx).Draw(t, "members")
-		c := c13SetCase{Size: size, Order: perm[:k], First: rapid.IntRange(-1, k-1).Draw(t, "first"), FirstMember: rapid.IntRange(0, 2).Draw(t, "firstMember")}
-		return c
+		return c13SetCase{Size: size, Order: perm[:k], First: rapid.IntRange(-1, k-1).Draw(t, "first"), FirstMember: rapid.IntRange(0, 2).Draw(t, "firstMember"), Level: level}
 	},
 	Oracle: c13SetOracle,
 	Obs: func(c c13SetCase) Obs {
-		u := c13Universe(c.Size)
+		u := c13Universe(c.Size, stack.Similarity(c.Level))
 		std, other := false, false
 		for _, k := range c.Order {
 			if allStdNonMain(u[k]) {
@@ -412,9 +445,18 @@ func init() {
 }
 
 func TestC13(t *testing.T) {
+	for _, lvl := range []stack.Similarity{stack.ExactFlags, stack.AnyPointer} {
+		c13Triples(t, lvl)
+	}
+	a := c13Set
+	a.Checks = n(1500, 20000)
+	a.Run(t)
+}
+
+func c13Triples(t *testing.T, lvl stack.Similarity) {
 	st := statsFor("C13")
 	size := n(0, 150)
-	u := c13Universe(size)
+	u := c13Universe(size, lvl)
 	nu := len(u)
 	// Pair relation matrix.
 	rel := make([][]int, nu)
@@ -423,15 +465,15 @@ func TestC13(t *testing.T) {
 	}
 	for a := 0; a < nu; a++ {
 		for b := a + 1; b < nu; b++ {
-			r, err := c13Relation(u, a, b, 1)
+			r, err := c13Relation(u, a, b, 1, lvl)
 			if err != nil {
-				c13Triple.Each(t, c13TripleCase{Size: size, A: a, B: b, C: b})
+				c13Triple.Each(t, c13TripleCase{Size: size, A: a, B: b, C: b, Level: int(lvl)})
 				t.Fatal(err)
 			}
 			rel[a][b], rel[b][a] = r, -r
 			for _, p := range [][2]int{{a, b}, {b, a}} {
 				if err := c13PairContract(u, p[0], p[1], rel[p[0]][p[1]]); err != nil {
-					c13Triple.Each(t, c13TripleCase{Size: size, A: p[0], B: p[1], C: p[1]})
+					c13Triple.Each(t, c13TripleCase{Size: size, A: p[0], B: p[1], C: p[1], Level: int(lvl)})
 				}
 			}
 		}
@@ -454,7 +496,7 @@ func TestC13(t *testing.T) {
 				bad := rel[a][b] == -1 && rel[b][c] == -1 && rel[a][c] != -1 || rel[a][b] == 0 && rel[b][c] == 0 && rel[a][c] != 0
 				if bad {
 					// confirm on the triple itself with repetitions, then report
-					if !c13Triple.Each(t, c13TripleCase{Size: size, A: a, B: b, C: c}) {
+					if !c13Triple.Each(t, c13TripleCase{Size: size, A: a, B: b, C: c, Level: int(lvl)}) {
 						return
 					}
 				}
@@ -463,9 +505,6 @@ func TestC13(t *testing.T) {
 	}
 	st.count(cnt, nt)
 	st.class("triples", cnt)
-	st.exhaustive(fmt.Sprintf("all ordered triples over a universe of %d signatures (stack length 1..3, per-frame location class, package main, function, DirSrc, line, lock, state, member count), relation recovered from 4 runs per pair", nu), cnt)
-	st.sample(map[string]any{"triple": []string{u[4].String(), u[12].String(), u[nu-1].String()}})
-	a := c13Set
-	a.Checks = n(1500, 20000)
-	a.Run(t)
+	st.exhaustive(fmt.Sprintf("all ordered triples over a universe of %d signatures (stack length 1..3, per-frame location class, package main, function, DirSrc, line, lock, state, member count), relation recovered from 4 runs per pair, observed at %s", nu, levelNames[lvl]), cnt)
+	st.sample(map[string]any{"level": levelNames[lvl], "triple": []string{u[4].String(), u[12].String(), u[nu-1].String()}})
 }
